@@ -585,6 +585,15 @@ func runProgram(t *rapid.T, focus string) {
 			mine = append(mine, v)
 		}
 	}
+	if len(mine) > 0 && staleTermKnown(focus) {
+		if w := staleTermWinners(c.hist.snapshot()); len(w) > 0 {
+			// the root cause of a listed finding occurred in this history (see kf_staleterm_test.go): what follows
+			// from it is not counted again; the case is counted as excluded
+			evid.Excluded(focus, kfStaleTerm)
+			evid.Case(focus, false, strings.Join(s.steps, "; ")+" EXCLUDED "+w[0], "excluded_by_known_finding")
+			return
+		}
+	}
 	if len(mine) > 0 {
 		var ev []string
 		for _, e := range c.hist.snapshot() {
